@@ -10,6 +10,9 @@ include that cannot be met, no mode / no baud rate fitting) are run through the 
    30 % of the cases go through the API instead of the JSON loader: PathRequest objects built directly (optional fields
    omitted when they have their default) + correct_json_route_list / compute_path_dsjctn / compute_path_with_disjunction;
    a request built without its optional fields must also behave like the one with the defaults spelled out.
+   Simulation parameters: the three NLI methods x NLI on every channel / a channel list / a number of channels; the
+   process-wide SimParams must be the same after every run.  A separate stream has synchronization vectors (working /
+   protection pairs on rings) whose request order is independent of the batch order.
  * oracle (python, field by field, 1e-9): route, mode, blocking reason (spectrum reasons and N/M excluded), receiver
    GSNR/OSNR figures of both directions are those of the request alone; `network_to_json` and a deep attribute snapshot of
    every element are the same before and after every run.
@@ -47,6 +50,10 @@ def gen_library(rng):
 
 def gen_case(rng):
     env = c13.gen_env(rng, nmax=5, nch_max=24)
+    small = rng.random() < 0.07                                      # small enough for the spectrally separated GGN
+    if small:
+        env['nsites'], env['nch'] = 2, rng.randint(5, 7)
+        env['lines'] = [['A', 'B', [round(rng.uniform(20, 110), 1)], [round(rng.uniform(20, 110), 1)]]]
     if env['nsites'] >= 3 and rng.random() < 0.15 and len(env['lines']) > 1:
         env['lines'].pop(rng.randrange(len(env['lines'])))          # may disconnect the mesh: NO_PATH
     if rng.random() < 0.5:
@@ -56,7 +63,7 @@ def gen_case(rng):
     names = [chr(65 + i) for i in range(env['nsites'])]
     band = (env['nch'] + 0.5) * 50e9
     reqs = []
-    for i in range(rng.randint(2, 6)):
+    for i in range(rng.randint(2, 3) if small else rng.randint(2, 6)):
         src, dst = rng.sample(names, 2)
         auto = rng.random() < 0.3
         if auto:
@@ -99,6 +106,83 @@ def gen_case(rng):
     if rng.random() < 0.3:
         # API-level stream: PathRequest objects built directly, optional fields left out when they have their default
         case['api'] = {'omit': [rng.random() < 0.7 for _ in reqs]}
+    case['sim'] = gen_sim(rng, reqs, band, env)
+    return case
+
+
+def gen_sim(rng, reqs, band, env=None):
+    """simulation parameters (process-wide SimParams): the three NLI methods, with the NLI evaluated on every channel, on
+    a list of channels or on a number of channels spread over the comb (the comb differs from request to request).
+    ggn_spectrally_separated costs ~0.03 s x computed channels x channels per fibre: it is only drawn for small cases."""
+    r = rng.random()
+    small = env is not None and env['nsites'] == 2 and env['nch'] <= 7 and len(reqs) <= 4 \
+        and all(len(sp) <= 2 for ln in env['lines'] for sp in ln[2:4])
+    if r < 0.6 and not small:
+        return None                                                  # defaults: gn_model_analytic
+    method = 'ggn_spectrally_separated' if small else rng.choice(['gn_model_analytic', 'ggn_approx', 'ggn_approx', 'ggn_approx'])
+    nli = {'method': method, 'dispersion_tolerance': 4 if small else rng.choice([1, 2]), 'phase_shift_tolerance': 0.1}
+    fits = [r_['path-constraints']['te-bandwidth'].get('max-nb-of-channel')
+            or int(band // r_['path-constraints']['te-bandwidth']['spacing']) for r_ in reqs]
+    k = rng.random()
+    if k < 0.45 or small:
+        nli['computed_number_of_channels'] = rng.randint(2, 3 if small else 7)
+    elif k < 0.75:
+        top = max(2, min(fits))                                      # listed channels must exist in every comb
+        nli['computed_channels'] = sorted(set([1, rng.randint(1, top), top]))
+    if method.startswith('ggn'):
+        # the GGN formulas need the roll-off of the propagated comb; an automatically selected mode leaves the request's
+        # roll_off undefined for the Z->A propagation (TypeError in _generalized_psi): not a batch matter, avoided here
+        for r_ in reqs:
+            if r_['path-constraints']['te-bandwidth']['trx_mode'] is None:
+                r_['bidirectional'] = False
+    return {'nli_params': nli, 'raman_params': {'flag': False}}
+
+
+def gen_sync_case(rng):
+    """a batch with synchronization vectors: working / protection pairs (same end points, or sharing their best route) on
+    a ring, so that it matters which request of a vector is served first; vectors list their requests in an order
+    that is independent of the order of the batch"""
+    env = c13.gen_env(rng, nmax=5, nch_max=16)
+    n = env['nsites'] = rng.choice([3, 4, 4])
+    env['lines'] = [[chr(65 + i), chr(65 + (i + 1) % n),
+                     [round(rng.uniform(20, 110), 1) for _ in range(rng.choice([1, 1, 2]))],
+                     [round(rng.uniform(20, 110), 1) for _ in range(rng.choice([1, 1, 2]))]] for i in range(n)]
+    env['roadm_sites'] = [rng.random() < 0.5 for _ in range(n)]
+    modes = gen_library(rng)
+    names = [chr(65 + i) for i in range(n)]
+    band = (env['nch'] + 0.5) * 50e9
+
+    def mk(i, src, dst):
+        m = rng.choice(modes)
+        auto = rng.random() < 0.2
+        sp = rng.choice([s_ for s_ in c13.SPACINGS if s_ >= m['min_spacing'] and int(band // s_) >= 2] or [50e9])
+        return c13.request_json(i, src, dst, None if auto else m['format'], sp, rng.random() < 0.3,
+                                bandwidth=rng.choice([100e9, 200e9]))
+    reqs, sync = [], []
+    for g in range(rng.choice([1, 1, 2])):
+        src, dst = rng.sample(names, 2)
+        a = mk(len(reqs), src, dst)
+        reqs.append(a)
+        if rng.random() < 0.7:
+            b = mk(len(reqs), src, dst)                               # working / protection between the same nodes
+        else:
+            other = rng.choice([x for x in names if x != src])
+            b = mk(len(reqs), src, other)                             # shares at most the start of the route
+        reqs.append(b)
+        pair = [a['request-id'], b['request-id']]
+        if rng.random() < 0.5:
+            pair.reverse()
+        sync.append({'synchronization-id': f's{g}', 'svec': {'relaxable': False, 'disjointness': 'node link',
+                                                              'request-id-number': pair}})
+    for _ in range(rng.randint(0, 2)):
+        src, dst = rng.sample(names, 2)
+        reqs.append(mk(len(reqs), src, dst))
+    order = list(range(len(reqs)))
+    rng.shuffle(order)                                                # batch order independent of the vectors
+    reqs = [reqs[k] for k in order]
+    case = {'kind': 'batch', 'env': env, 'modes': modes, 'requests': reqs, 'sync': sync,
+            'perm_seed': rng.randrange(1 << 30)}
+    case['sim'] = gen_sim(rng, reqs, band, None) if rng.random() < 0.3 else None
     return case
 
 
@@ -255,11 +339,17 @@ def signature(res, with_json=True):
             'baud_rate': rq.baud_rate, 'bidir': rq.bidir, 'figs': figs, 'metrics': metrics, 'echo': echo}
 
 
-def run_planning(E, reqs):
+def run_planning(E, reqs, sync=None):
     from gnpy.tools.worker_utils import planning
     from gnpy.core.elements import Edfa
     designed = {el.uid: el.effective_gain for el in E.net.nodes() if isinstance(el, Edfa)}
-    out = planning(E.net, E.eq, {'path-request': copy.deepcopy(reqs)})
+    data = {'path-request': copy.deepcopy(reqs)}
+    if sync:
+        present = {r['request-id'] for r in reqs}
+        vec = [v for v in copy.deepcopy(sync) if set(v['svec']['request-id-number']) <= present]
+        if vec:
+            data['synchronization'] = vec
+    out = planning(E.net, E.eq, data)
     sigs = {}
     for res in out[5]:
         s = signature(res)
@@ -328,12 +418,28 @@ def run_api(E, reqs, omit):
 
 
 def drive(case):
+    from gnpy.core.parameters import SimParams
+    logging.disable(logging.CRITICAL)
+    SimParams.set_params(copy.deepcopy(case.get('sim') or {}))
+    try:
+        return _drive(case)
+    finally:
+        SimParams.set_params({})                                      # the worker process serves other cases afterwards
+
+
+def sim_snapshot():
+    from gnpy.core.parameters import SimParams
+    return _plain(SimParams._shared_dict)
+
+
+def _drive(case):
     import random
     from gnpy.core.exceptions import ServiceError, EquipmentConfigError, NetworkTopologyError, DisjunctionError
     import gnpy.topology.request as rq
-    logging.disable(logging.CRITICAL)
     E = c13.Env(case['env'], [c13.clean_mode(m) for m in case['modes']])
     reqs = case['requests']
+    sync = case.get('sync')
+    sim0 = sim_snapshot()
     ids = [r['request-id'] for r in reqs]
     j0, d0 = snapshot(E.net)
     obs = {'net0': digest([j0, d0]), 'runs': [], 'alone': {}, 'uids': [el.uid for el in E.net.nodes()]}
@@ -344,7 +450,7 @@ def drive(case):
     def runner(env_obj, rs, explicit=False):
         if api:
             return run_api(env_obj, rs, [False if explicit else omit_of[r['request-id']] for r in rs])
-        return run_planning(env_obj, rs)
+        return run_planning(env_obj, rs, sync)
 
     def one(name, rs, explicit=False):
         try:
@@ -355,11 +461,43 @@ def drive(case):
         j1, d1 = snapshot(E.net)
         rec = {'name': name, 'order': [r['request-id'] for r in rs], 'sigs': sigs, 'exc': exc,
                'net': digest([j1, d1]), 'json_same': j1 == j0, 'deep_diff': snap_diff(d0, d1) if d1 != d0 else []}
+        sim1 = sim_snapshot()
+        if sim1 != sim0:
+            rec['sim_diff'] = [f'{k}.{a}: {sim0[k].get(a)} -> {sim1[k].get(a)}' for k in sim0 for a in sim0[k]
+                               if sim0[k].get(a) != sim1[k].get(a)][:4]
+            from gnpy.core.parameters import SimParams
+            SimParams.set_params(copy.deepcopy(case.get('sim') or {}))      # so that the next run is judged on its own
         return rec
     obs['alone_explicit'] = {}
+    by_id = {r['request-id']: r for r in reqs}
+    group_of = {}
+    for v in sync or []:
+        for i in v['svec']['request-id-number']:
+            group_of.setdefault(i, [])
+            group_of[i] += [j for j in v['svec']['request-id-number'] if j not in group_of[i]]
     for r in reqs:
-        rec = one('alone:' + r['request-id'], [r])
-        obs['alone'][r['request-id']] = rec
+        rid = r['request-id']
+        if rid in obs['alone']:
+            continue
+        if rid in group_of:
+            # disjoint routing makes a request depend on its partners BY DESIGN: the reference of a member of a
+            # synchronization vector is the vector computed alone, its requests listed in the order of the vector
+            members = []
+            todo = [rid]
+            while todo:
+                x = todo.pop(0)
+                if x not in members:
+                    members.append(x)
+                    todo += group_of.get(x, [])
+            first = next(v for v in sync if set(v['svec']['request-id-number']) & set(members))
+            members = [i for i in first['svec']['request-id-number']] + [i for i in members
+                                                                        if i not in first['svec']['request-id-number']]
+            rec = one('group:' + '+'.join(members), [by_id[i] for i in members])
+            for i in members:
+                obs['alone'][i] = rec
+            continue
+        rec = one('alone:' + rid, [r])
+        obs['alone'][rid] = rec
         if api and omit_of[r['request-id']]:
             # the same request with its optional fields spelled out
             obs['alone_explicit'][r['request-id']] = one('alone-explicit:' + r['request-id'], [r], explicit=True)
@@ -467,6 +605,13 @@ def judge(ctx, case, obs):
             ok = False
             ctx.violation('network_changed', f"run {rec['name']}: designed network differs after planning "
                           f"(network_to_json same: {rec['json_same']}); {rec['deep_diff']}", pub)
+    seen_rec = set()
+    for rec in list(obs['alone'].values()) + obs['runs'] + list((obs.get('alone_explicit') or {}).values()):
+        if rec.get('sim_diff') and id(rec) not in seen_rec:
+            seen_rec.add(id(rec))
+            ok = False
+            ctx.violation('sim_params_changed', f"run {rec['name']}: the process-wide simulation parameters differ after "
+                          f"planning: {rec['sim_diff']}", pub, detail={'run': rec['name'], 'diff': rec['sim_diff']})
     for i, rec in (obs.get('alone_explicit') or {}).items():
         d = same_sig(obs['alone'][i]['sigs'].get(i), rec['sigs'].get(i)) if not (rec['exc'] or obs['alone'][i]['exc']) \
             else (True if rec['exc'] == obs['alone'][i]['exc'] else f"{obs['alone'][i]['exc']} / {rec['exc']}")
@@ -533,7 +678,8 @@ def run(ctx):
     if ctx.replay:
         cases = [json.load(open(ctx.replay))['case']]
     else:
-        cases += [gen_case(rng) for _ in range(ctx.scale(70, 600))]
+        cases += [gen_case(rng) for _ in range(ctx.scale(56, 480))]
+        cases += [gen_sync_case(rng) for _ in range(ctx.scale(20, 160))]
     terms, meta = [], []
     all_obs = pmap_drive(cases)
     for c, obs in zip(cases, all_obs):
@@ -543,6 +689,17 @@ def run(ctx):
         ctx.case(case_public(c), nontriv)
         ctx.count('requests', len(c['requests']))
         ctx.count('cases_api_stream' if c.get('api') else 'cases_planning')
+        if c.get('sync'):
+            ctx.count('cases_with_synchronization')
+            routes = {i: tuple(s_['route']) for i, s_ in batch['sigs'].items()}
+            for v in c['sync']:
+                a, b = v['svec']['request-id-number'][:2]
+                one_alone = {}
+                if routes.get(a) and routes.get(b):
+                    ctx.count('disjoint_pairs_routed')
+        sim = (c.get('sim') or {}).get('nli_params') or {}
+        ctx.count('nli_' + sim.get('method', 'default') + ('_nch' if sim.get('computed_number_of_channels') else
+                                                           '_list' if sim.get('computed_channels') else ''))
         for r in c['requests']:
             if r.get('twin_of'):
                 ctx.count('near_twin_' + r['twin_of'][1])
@@ -595,6 +752,8 @@ def run(ctx):
         'compares the floats with 1e-9',
         'Roadm.oms_list / element.oms (written by build_oms_list at the start of every planning() call) are left out of the '
         'snapshot: oms_list grows by a duplicate of its ids at every call and is never read',
-        'batches contain no synchronization vector (disjoint routing makes routes depend on the partner by design; C12)',
+        'the reference result of a request that belongs to a synchronization vector is the vector computed alone (disjoint '
+        'routing makes a route depend on the partners by design; C12); whole batches and permutations are compared to it',
+        'SimParams._shared_dict is snapshotted (deep) before and after every planning run and restored between runs',
     ]
     return common.finish(ctx, MATCHERS)
